@@ -278,6 +278,33 @@ theorem envelope_pole_contract (c : ℝ) :
         exact onePole_nonneg 0 _ (le_refl 0) hp.le _ hx _ (by simp [finit]) ⟨0, by simp [finit], le_refl _⟩ y hy
       · exact onePole_nonneg _ _ (by linarith) hp.le _ hx _ (by simp [finit]) ⟨0, by simp [finit], le_refl _⟩ y hy
 
+/-- **C20.4h** a TIME-VARYING cutoff (`envelope.*(sig, cutoff=<stream>)`): the pole follows the cutoff
+sample by sample, `y[n] = (1 − R(c[n]))·u[n] + R(c[n])·y[n−1]`, as long as both streams last; `R(c)` is the
+pole of C13's `lowpass.pole` at `c` (the same expression, for every number type). -/
+theorem envelope_var_eq_spec (s : Option EnvStrategy) (cs xs : List ℝ) :
+    envelopeVarCall s cs xs = envelopeVarSpec s cs xs ∧
+    (envelopeVarCall s cs xs).length = min cs.length xs.length := by
+  have ha : ∀ us : List ℝ, us.map absG = us.map TrigField.abs := by
+    intro us; apply List.map_congr_left; intro x _; exact absG_eq_abs x
+  have h0 : ∀ cs us : List ℝ, envVarLoop 0 cs us = onePoleVarFrom (TrigField.ofInt 0) (cs.map poleRadius) us := by
+    intro cs us; rw [envVarLoop_real]; simp
+  unfold envelopeVarCall envelopeVarSpec
+  simp only [EnvStrategy.dflt]
+  cases s.getD EnvStrategy.rms <;>
+    simp only [h0, ha, onePoleVarFrom_length, List.length_map, and_self]
+
+theorem envelope_var_pole_is_C13 {α : Type} [TrigField α] [ZeroTest α] (c : α) :
+    lowpassPole c = C13.mk [c1 - polePoint c] [c1, -polePoint c] := rfl
+
+/-- **C20.4i** a cutoff stream that stays at `c` (and lasts as long as the input) is the constant cutoff `c`. -/
+theorem envelope_var_constant (s : Option EnvStrategy) (c : ℝ) (n : Nat) (xs : List ℝ) (h : xs.length ≤ n) :
+    envelopeVarCall s (List.replicate n c) xs = envelopePoleCall s (some c) xs := by
+  rw [(envelope_var_eq_spec s _ xs).1, envelope_pole_eq_spec]
+  unfold envelopeVarSpec envelopeSpec
+  simp only [Option.getD_some, List.map_replicate, TrigField.real_ofInt, Int.cast_zero, Int.cast_one]
+  cases s.getD EnvStrategy.rms <;> simp only [] <;>
+    rw [onePoleVarFrom_const _ _ n _ (by simpa using h)]
+
 end envelopePole
 
 /-! ### clip -/
@@ -803,8 +830,9 @@ theorem float_calls (md step low high : Arg Float) (s : Option EnvStrategy) (cut
       envelopeCall (fun c => ((C13.lowpass .pole c).num, (C13.lowpass .pole c).den.drop 1)) Float.sqrt floatPi
         s cutoff xs ∧
     F.envelopeSpec s cutoff xs = envelopeSpec s cutoff xs ∧
+    F.envelopeVarCall s a xs = envelopeVarCall s a xs ∧ F.envelopeVarSpec s a xs = envelopeVarSpec s a xs ∧
     F.envelopeAbs b a xs = envelopeAbs b a xs ∧ F.envelopeSquared b a xs = envelopeSquared b a xs :=
-  ⟨rfl, rfl, rfl, rfl, rfl, rfl, rfl⟩
+  ⟨rfl, rfl, rfl, rfl, rfl, rfl, rfl, rfl, rfl⟩
 
 /-! ### causality: the first `n` outputs depend on the first `n` inputs only
 
@@ -882,6 +910,7 @@ example : (0 : Rat) < 1/3 ∧ R.unwrap (1/7) (1/3) [0, 5/7, 1/2] = [0, 1/21, 1/6
 example : (0 : ℝ) < Real.pi / 512 ∧ Real.pi / 512 < Real.pi :=
   ⟨by positivity, by have := Real.pi_pos; linarith⟩
 example : onePoleFrom (1 - 1/2 : Rat) (1/2) 0 [1, 1, 1] = [1/2, 3/4, 7/8] := by decide +kernel
+example : ([1, -2] : List ℝ).length ≤ 3 := by simp
 
 end ALV.Props.C20
 
